@@ -158,6 +158,22 @@ class Prop:
                     # an UPDATE sent restarts the keepalive interval (Established only)
                     add(cfg, [ARR(OPEN(rh), KA), SEL, TICK(1), ('pending',), SEL, TICK(max(h // 3, 1) - 1), SEL, TICK(1), SEL, SEL])
                     add(cfg, [ARR(OPEN(rh)), SEL, TICK(1), ('pending',), SEL, ARR(KA), TICK(1), SEL, TICK(1), ('pending',), SEL])
+        # 2. "... and by nothing else": on an Established session with a hold time in force, everything
+        # that is not a received KEEPALIVE / UPDATE happens part-way through the hold interval (a received
+        # ROUTE-REFRESH, an UPDATE or a keepalive being sent, a stale event of the other connection), then
+        # silence up to the original deadline: the session must go down at that deadline
+        REFRESH = ('refresh', IPV4)
+        for lh in (3, 9, 90, 65535):
+            for rh in (3, 9, 90):
+                h = min(lh, rh)
+                for role in (A, Pv):
+                    for lcap in CAPSETS[:2]:
+                        cfg = self.base(lh, role, lcap=lcap)
+                        for d1 in sorted({1, h // 3, h - 1}):
+                            rest = h - d1
+                            for mid in ([ARR(REFRESH)], [ARR(REFRESH, REFRESH)], [('pending',)], [('other', ('recv', KA))],
+                                        [ARR(REFRESH), SEL, ('pending',)]):
+                                add(cfg, [ARR(OPEN(rh), KA), SEL, TICK(d1)] + mid + [SEL, SEL, TICK(max(rest, 1) - 1), SEL, SEL, TICK(1), SEL, SEL])
         nrand = 2500 if tier == 'quick' else 30000
         for _ in range(nrand):
             cases.append(self.random_case(rng))
